@@ -27,13 +27,29 @@ def plain(x):
     return {"k": "plain", "x": x}
 
 
+PENDING = []      # steps decided together with an earlier one (a pair of queries that must be asked one after the other)
+
+
 def pick_step(rng, pool):
     """choose an operation and pool members; returns (op, live argument objects, serialised arguments)"""
+    if PENDING:
+        return PENDING.pop(0)
+    if rng.random() < 0.07:
+        # two containment queries, one right after the other, on constraint lists that PRINT alike (same four significant digits)
+        # but are different, and whose true answers differ: lo <= hi (True), then hi <= lo (False) -- or the other way round
+        m4 = F(rng.randint(1000, 2400), 1000)
+        e10 = F(10) ** rng.randint(0, 5)
+        v = rng.choice(["x", "u", "o"])
+        sg = rng.choice([1, -1])
+        lo, hi = gen.mktl([({v: F(sg)}, (m4 - F(4, 10000)) * e10)]), gen.mktl([({v: F(sg)}, (m4 + F(4, 10000)) * e10)])
+        first, second = ((lo, hi), (hi, lo)) if rng.random() < 0.5 else ((hi, lo), (lo, hi))
+        PENDING.append(("tl_refines", list(second), [arg_terms(second[0]), arg_terms(second[1])], []))
+        return "tl_refines", list(first), [arg_terms(first[0]), arg_terms(first[1])], []
     cs = [i for i, v in enumerate(pool) if isinstance(v, PolyhedralIoContract)]
     ts = [i for i, v in enumerate(pool) if isinstance(v, PolyhedralTermList)]
     op = rng.choice(["compose", "compose_tactics", "quotient", "merge", "refines", "rename", "rename_one", "copy", "elim_refine", "elim_refine",
                      "elim_relax",
-                     "tl_simplify", "tl_refines", "contains", "optimize", "bounds", "to_machine_dict", "dict_roundtrip", "to_dict",
+                     "tl_simplify", "tl_simplify", "tl_refines", "contains", "optimize", "bounds", "to_machine_dict", "dict_roundtrip", "to_dict",
                      "string_roundtrip", "parse", "to_str_list"])
     i, j = rng.choice(cs), rng.choice(cs)
     ci, cj = pool[i], pool[j]
@@ -75,6 +91,12 @@ def pick_step(rng, pool):
             sp = rng.random() < 0.35          # simplify=False works on the operand itself: the interesting path
         od = order or [1, 2, 3, 4, 5]
         return op, [tl, ctx, vs, sp, od], [arg_terms(tl), arg_terms(ctx), {"k": "vars", "x": [str(v) for v in vs]}, plain(sp), plain(od)], [i, j]
+    if op == "tl_simplify" and rng.random() < 0.5:
+        # boundary shapes: no context / an empty context, and a list of ONE term built around a pool member's own term object
+        # (whatever comes back must be a new object all the way down)
+        tl = ci.g if rng.random() < 0.4 or not ci.g.terms else PolyhedralTermList([rng.choice(ci.g.terms)])
+        cx = None if rng.random() < 0.5 else PolyhedralTermList([])
+        return op, [tl, cx], [arg_terms(tl), plain(None) if cx is None else arg_terms(cx)], [i]
     if op in ("tl_simplify", "tl_refines"):
         return op, [ci.g, cj.a | cj.g], [arg_terms(ci.g), arg_terms(cj.a | cj.g)], [i, j]
     if op == "contains":
@@ -97,6 +119,7 @@ def pick_step(rng, pool):
 
 
 def run_history(ctx, rng, length, stats):
+    del PENDING[:]
     wiring, c1, c2 = pc.gen_pair(rng, rng.choice(["cascade", "cascade2", "shared_inputs", "feedback"]))
     w2, c3, c4 = pc.gen_pair(rng, "independent")
     pool = [gen.mkcontract(c) for c in (c1, c2, c3, c4)]
